@@ -11,6 +11,7 @@ from engine import pat
 from engine.util import own_nodes, calls_with_nodes, where
 
 RULES = {
+    "R-09.8": "records of one owner and type merge while the file is read only if the lookup addresses the stored rdataset by its full (rdclass, rdtype, covers) key: calls that pass <x>.rdtype (or their own rdtype) also pass the matching covers (same rule as C10 R-10.9, run here directly because C10 adopts a C09 rule)",
     "R-09.7": "names inside records of a zone file are made relative to the ZONE origin even below a `$ORIGIN` line: every name-reading call of a text reader passes origin, relativize and relativize_to on (C05 R-05.6 adopted)",
     "R-09.6": "$INCLUDE saves the including file's reader state before any of it is changed and restores the same fields in the same order at the end of the included file (tokenizer, current origin, last owner, file, TTL state)",
     "R-09.5": "skipping an ignored (out-of-zone) line terminates at end of input as well as at end of line: token loops of the zone reader leave on EOF (shared with C04 R-04.6)",
@@ -205,6 +206,8 @@ def run(model, rep, tier):
         rep.check(blk is not None and not early, "R-09.6", rd6.qualname, where(rd6, early[0] if early else saves[0]), "the state is saved before the $INCLUDE arm changes any of it",
                   (f"`{src(early[0])[:50]}` runs before the state is saved: the included file's value is what gets restored, so the rest of the including file is read under the wrong "
                    "origin / owner / TTL (names silently land elsewhere)") if early else "the save is not a statement of the $INCLUDE arm", stmt="include-save-first")
+    from rules.common import key_triple_forwarded
+    key_triple_forwarded(model, rep, "R-09.8", {"dns.node", "dns.zone", "dns.transaction", "dns.btreezone", "dns.versioned", "dns.zonefile"}, 15)
     rep.meta["explanation"] = (
         "Three narrow structural clauses: the generic-syntax path encodes with the style's origin and the writer functions cannot raise; a taint-style gate analysis of the owner name in "
         "_rr_line/_generate_line (reachability with the in-zone edge removed, caller-supplied force_name exempt); and who-may-call / must-pass-through for the CNAME-exclusivity hook. "
